@@ -140,3 +140,76 @@ func nestedCtx() map[string]any {
 		"m":    map[string]any{"deep": map[string]any{"z": -0.25}},
 	}
 }
+
+// PrefixUniverse: every filter dimension has two values of which one is a prefix of the other, the
+// remaining fields being equal to those of the base tuple q0 (so a filter on one dimension separates them).
+func PrefixUniverse() []Tup {
+	return []Tup{
+		{Obj: "doc:1", Rel: "r1", User: "user:a", Cond: cA, Ctx: map[string]any{"x": 1.0}}, // q0 base
+		{Obj: "docs:1", Rel: "r1", User: "users:a"},                                        // object type doc/docs, user type user/users
+		{Obj: "doc:10", Rel: "r1", User: "user:a"},                                         // object id 1/10
+		{Obj: "doc:1", Rel: "r10", User: "user:a"},                                         // relation r1/r10
+		{Obj: "doc:1", Rel: "r1", User: "user:ab", Cond: cA + "2"},                         // user id a/ab, condition cx/cx2
+		{Obj: "doc:1", Rel: "r1", User: "group:1#member"},                                  // userset relation member/members
+		{Obj: "doc:1", Rel: "r1", User: "group:1#members"},
+	}
+}
+
+// PrefixBattery: type-only and exact filters for both members of every pair, one dimension at a time and combined.
+func PrefixBattery() []Call {
+	var out []Call
+	cA2 := cA + "2"
+	conds := []*[]string{nil, sp(cA), sp(cA2)}
+	for _, o := range []string{"", "doc:", "docs:", "doc:1", "doc:10", "docs:1"} {
+		for _, r := range []string{"", "r1", "r10"} {
+			for _, u := range []string{"", "user:", "users:", "user:a", "user:ab", "users:a", "group:1#member", "group:1#members"} {
+				for ci, c := range conds {
+					if ci > 0 && o != "" && o != "doc:" && o != "doc:1" {
+						continue
+					}
+					out = append(out, Call{Kind: "Read", Object: o, Relation: r, User: u, Conds: c})
+					if ci == 0 {
+						out = append(out, Call{Kind: "ReadPage", Object: o, Relation: r, User: u, Conds: c, PageSize: 2})
+					}
+				}
+			}
+		}
+	}
+	for _, o := range []string{"doc:1", "doc:10", "docs:1", "doc:"} {
+		for _, r := range []string{"r1", "r10"} {
+			for _, u := range []string{"user:a", "user:ab", "users:a", "group:1#member", "group:1#members", "user:"} {
+				for _, c := range conds {
+					out = append(out, Call{Kind: "ReadUserTuple", Object: o, Relation: r, User: u, Conds: c})
+				}
+			}
+		}
+	}
+	for _, o := range []string{"doc:1", "doc:10"} {
+		for _, r := range []string{"r1", "r10"} {
+			for _, rs := range [][]string{nil, {"group#member"}, {"group#members"}, {"group#member", "group#members"}, {"groups#member"}} {
+				for _, c := range []*[]string{nil, sp(""), sp(cA)} {
+					out = append(out, Call{Kind: "ReadUsersetTuples", Object: o, Relation: r, Restr: rs, Conds: c})
+				}
+			}
+		}
+	}
+	ufs := [][][2]string{
+		{{"user:a", ""}}, {{"user:ab", ""}}, {{"users:a", ""}}, {{"user:a", ""}, {"users:a", ""}},
+		{{"group:1", "member"}}, {{"group:1", "members"}}, {{"group:1", ""}}, {{"group:10", "member"}},
+	}
+	for _, ot := range []string{"doc", "docs"} {
+		for _, r := range []string{"r1", "r10"} {
+			for _, uf := range ufs {
+				for _, ids := range []*[]string{nil, sp("1"), sp("10"), sp("1", "10")} {
+					for ci, c := range conds {
+						if ci > 0 && ids != nil {
+							continue
+						}
+						out = append(out, Call{Kind: "ReadStartingWithUser", ObjType: ot, Relation: r, UF: uf, OIDs: ids, Conds: c, Sorted: true})
+					}
+				}
+			}
+		}
+	}
+	return out
+}
